@@ -241,6 +241,11 @@ def correspond(res: Result, corpus: Corpus, ws: runner.Workspace, nshards=16, la
         res.violation({'kind': 'disagreement', 'label': label, 'enum': e.to_json(), 'op': o.line, 'cls': o.cls,
                        'model': mout[k], 'impl': iout[k], 'rust': gen_cls(e, strum_path).render(),
                        'what': 'implementation differs from the model (= spec by theorem) on an in-domain input'})
+    # shrink the first new (not known) failure to a small definition / input
+    try:
+        _shrink_first(res, corpus, ws, gen_cls, strum_path, label)
+    except Exception as ex:  # shrinking is best effort; it never changes the verdict
+        res.notes.append('shrinking failed: %r' % ex)
     res.cov['programs'] = res.cov.get('programs', 0) + len(especs)
     res.cov['evaluations'] = res.cov.get('evaluations', 0) + n_cmp
     res.cov['disagreements_checked'] = res.cov.get('disagreements_checked', 0) + n_cmp
@@ -248,6 +253,27 @@ def correspond(res: Result, corpus: Corpus, ws: runner.Workspace, nshards=16, la
     res.cov.setdefault('timing', {})[label or ws.key] = {'model_s': round(t_model, 2), 'build_s': round(bstats['wall_s'], 1),
                                                           'run_s': round(t_run, 2), 'build_rounds': bstats['rounds']}
     return {'model': mout, 'impl': iout, 'failed': failed, 'disagreements': dis}
+
+
+def _shrink_first(res, corpus, ws, gen_cls, strum_path, label):
+    from . import shrink
+    from .spec import espec_from_json
+    known = load_known()
+    for payload, nfi in res.violations:
+        if payload.get('label') != label or payload.get('kind') not in ('disagreement', 'compile_error') or 'enum' not in payload:
+            continue
+        if payload.get('shrunk') is not None or match_known(res.pid, payload, known) is not None:
+            continue
+        e = espec_from_json(payload['enum'])
+        sh = shrink.Shrinker(ws.key, ws.kwargs(), gen_cls=gen_cls, strum_path=strum_path)
+        r = sh.run(e, payload.get('op'), payload['kind'])
+        if r is None:
+            payload['shrunk'] = 'not reproducible in isolation'
+        else:
+            e2, op2, m, i, builds = r
+            payload['shrunk'] = {'enum': e2.to_json(), 'op': op2, 'model': m, 'impl': i, 'rust': gen_cls(e2, strum_path).enum_source(),
+                                 'builds': builds, 'variants_before': len(e.variants), 'variants_after': len(e2.variants)}
+        return
 
 
 def distribution(corpus: Corpus, mout):
